@@ -28,7 +28,10 @@ MANIFEST = {
             "layout and decode-after-encode, staking key at account/2/0, Byron HD-path recovery; extracted model vs "
             "implementation on seeds x index paths x schemes x networks.",
     "note": "HMAC/PBKDF2/SHA-512/Blake2b/ChaCha20-Poly1305 and the ed25519 group are oracles; cbor2 decoding of "
-            "untrusted input is an oracle; Bech32 text layer abstract (decode after encode as hypothesis).",
+            "untrusted input is an oracle; Bech32 text layer abstract (decode after encode as hypothesis) in the original "
+            "theorems. LINKED: the *_concrete theorems put Shelley addresses on the Bech32 model of C10 (the abstract law is false "
+            "of the real codec; needed instead: the four configured HRPs are well-formed -- computed -- and Blake2b-224 returns "
+            "bytes); the link.ada_*_c entries run the Bech32 layer inside the extracted model.",
     "technique": "Coq proof (bitwise lemmas decided over all byte values, modular arithmetic, abstract Z-module) + "
                  "generated-constant obligations + extracted-model differential run + direct recomputation",
     "ref": "7/C18",
@@ -599,6 +602,7 @@ def generate(ctx):
             ctx.run("kh_derive", [scheme, k, rb(rng, 32), path, 0, []], "priv-rand")
     ctx.note_exhaustive("seed lengths 0..70 x 3 master schemes (one seed each)")
     generate_addresses(ctx)
+    gen_link(ctx)
 
 
 B32 = "qpzry9x8gf2tvdw0s3jn54khce6mua7l"
@@ -794,3 +798,84 @@ def generate_addresses(ctx):
                 break
             ctx.run("cardano_seed_gen", [rb(rng, n)], "entropy-%d" % n)
 
+
+# ------------------------------------------------------------------ linked models (Extract/Api_link.v)
+# Shelley addresses with the Bech32 layer INSIDE the model (Model/LinkAdaShelley.v on Model/Bech32.v): the theorems
+# *_concrete of Props/C18.v are about these functions; no bech32 oracle is asked.
+
+def _direct_shelley_rt(a):
+    net, pk, sk = a
+    try:
+        s = AdaShelleyAddrEncoder.EncodeKey(pk, pub_skey=sk, net_tag=TAGS[net])
+    except Exception:  # noqa
+        return None
+    want = blake224(pk[-32:]) + blake224(sk[-32:])
+    got = AdaShelleyAddrDecoder.DecodeAddr(s, net_tag=TAGS[net])
+    return None if got == want else "Shelley address decodes to %s, not to the two key hashes" % got.hex()
+
+
+def _direct_staking_rt(a):
+    net, sk = a
+    try:
+        s = AdaShelleyStakingAddrEncoder.EncodeKey(sk, net_tag=TAGS[net])
+    except Exception:  # noqa
+        return None
+    got = AdaShelleyStakingAddrDecoder.DecodeAddr(s, net_tag=TAGS[net])
+    return None if got == blake224(sk[-32:]) else "staking address decodes to %s, not to the key hash" % got.hex()
+
+
+FUNCS["ada_shelley_encode_c"] = Func(model=lambda m, a: m.call("link.ada_shelley_encode_c", a[0], a[1], a[2]),
+                                     impl=FUNCS["ada_shelley_encode"].impl, direct=_direct_shelley_rt)
+FUNCS["ada_shelley_decode_c"] = Func(model=lambda m, a: m.call("link.ada_shelley_decode_c", a[0], a[1]),
+                                     impl=FUNCS["ada_shelley_decode"].impl)
+FUNCS["ada_staking_encode_c"] = Func(model=lambda m, a: m.call("link.ada_staking_encode_c", a[0], a[1]),
+                                     impl=FUNCS["ada_staking_encode"].impl, direct=_direct_staking_rt)
+FUNCS["ada_staking_decode_c"] = Func(model=lambda m, a: m.call("link.ada_staking_decode_c", a[0], a[1]),
+                                     impl=FUNCS["ada_staking_decode"].impl)
+FUNCS["ada_shelley_wallet_c"] = Func(
+    model=lambda m, a: fix_foreign(m.call("link.ada_shelley_wallet_c", a[0], a[1], a[2], Z(a[3]), Z(a[4]), Z(a[5]), a[6])),
+    impl=impl_shelley_wallet)
+
+
+def gen_link(ctx):
+    rng = ctx.rng
+    for _ in range(ctx.n(26, 400)):
+        if not ctx.time_left():
+            break
+        net = rng.randrange(2)
+        pk, sk = rand_pub(rng), rand_pub(rng)
+        ctx.run("ada_shelley_encode_c", [net, pk, sk], "link-valid")
+        ctx.run("ada_shelley_encode_c", [net, b"\x00" + pk, sk], "link-prefixed")
+        ctx.run("ada_staking_encode_c", [net, sk], "link-valid")
+        ctx.run("ada_shelley_encode_c", [net, rb(rng, 32), sk], "link-random-key")
+        ctx.run("ada_staking_encode_c", [net, rb(rng, rng.choice([31, 32, 33]))], "link-random-key")
+        a = OC.bech32_encode(HRPS[net][0], ref_shelley_payload(net, pk, sk)).str()
+        s = OC.bech32_encode(HRPS[net][1], bytes([0xE0 + HRPS[net][2]]) + blake224(sk)).str()
+        ctx.run("ada_shelley_decode_c", [net, a], "link-valid")
+        ctx.run("ada_staking_decode_c", [net, s], "link-valid")
+        ctx.run("ada_shelley_decode_c", [1 - net, a], "link-wrong-net")
+        ctx.run("ada_shelley_decode_c", [net, s], "link-wrong-kind")
+        ctx.run("ada_staking_decode_c", [net, a], "link-wrong-kind")
+        ctx.run("ada_shelley_decode_c", [net, mutate_text(rng, a, B32)], "link-mutated")
+        ctx.run("ada_staking_decode_c", [net, mutate_text(rng, s, B32)], "link-mutated")
+        bad = rng.randrange(4)
+        if bad == 0:
+            pl = bytes([rng.randrange(256)]) + rb(rng, 56)
+        elif bad == 1:
+            pl = ref_shelley_payload(net, pk, sk)[:rng.randrange(57)]
+        elif bad == 2:
+            pl = ref_shelley_payload(net, pk, sk) + rb(rng, rng.randrange(1, 4))
+        else:
+            pl = ref_shelley_payload(1 - net, pk, sk)
+        ctx.run("ada_shelley_decode_c", [net, OC.bech32_encode(HRPS[net][0], pl).str()], "link-bad-payload")
+        ctx.run("ada_staking_decode_c", [net, OC.bech32_encode(HRPS[net][1], pl[:29]).str()], "link-bad-payload")
+        # case and character-set damage the Bech32 MODEL has to get right by itself
+        ctx.run("ada_shelley_decode_c", [net, a.upper()], "link-upper")
+        ctx.run("ada_shelley_decode_c", [net, a[:7] + a[7:].upper()], "link-mixed-case")
+        ctx.run("ada_staking_decode_c", [net, s.replace("k", "\u212a", 1)], "link-kelvin-sign")
+        ctx.run("ada_shelley_decode_c", [net, a[:-6] + "".join(rng.choice(B32) for _ in range(6))], "link-checksum")
+    for scheme in (0, 1):
+        seed, net = rb(rng, rng.choice([16, 32])), rng.randrange(2)
+        for acc, chg, idx in ((0, 0, 0), (1, 1, 5)):
+            for op in (0, 1):
+                ctx.run("ada_shelley_wallet_c", [scheme, seed, net, acc, chg, idx, op], "link-wallet-%d" % scheme)
